@@ -5,7 +5,8 @@ from __future__ import annotations
 
 import ast
 
-from ..cfg import CFG
+from ..cfg import CFG, cond_strings
+from ..tutil import dict_from_zip, lin
 from ..core import AnalysisError, const_value, walk_own
 from ..defuse import DefUse, Terms, show, walk_term
 from ..effects import WriterEvents
@@ -110,7 +111,13 @@ def _none_safe(ctx, f, pname):
                 p = par
             else:
                 break
-        # early return on None before this statement
+        # semantic guards: every path to the statement has decided that
+        # the parameter is not None (early return / continue, nesting)
+        if not safe:
+            st = cfg.stmt_of(risky)
+            cs = set(cfg.conditions(st))
+            if f"{pname} is not None" in cs or pname in cs:
+                safe = True
         if not safe:
             st = cfg.stmt_of(risky)
             nid = cfg.node_of(st).id
@@ -234,32 +241,68 @@ def _readers(ctx):
               "chunks are taken from", node=g.node)
     # ColumnMappedReader maps requested names back through the same map
     oc = prog.func(TD + "ColumnMappedReader._get_orig_columns")
-    txt = ast.unparse(oc.node)
-    ok = "dict(zip(all_columns, all_orig_columns))" in txt and \
-        "[reverse_column_map[column] for column in columns]" in txt
+    oT = Terms(DefUse(prog, oc))
+    p_cols = [p for p in oc.params if p != "self"][0]
+    rets = [t for _r, t in oT.returns() if t != ("const", None)]
+    ok = False
+    why = f"returns {[show(t, 160) for t in rets]}"
+    if len(rets) == 1 and rets[0][0] == "comp" and rets[0][1] == "list" \
+            and len(rets[0][3]) == 1 and not rets[0][3][0][2] \
+            and rets[0][3][0][1] == ("param", p_cols):
+        elt = rets[0][2]
+        if elt[0] == "sub" and elt[2] == ("elem", ("param", p_cols)):
+            kv = dict_from_zip(elt[1])
+            SELF = ("param", "self")
+            ok = kv is not None and kv[0] == (
+                "mcall", SELF, "get_column_names", (), ()) and kv[1] == (
+                "mcall", ("attr", SELF, "reader"), "get_column_names", (),
+                ())
     ctx.check(ok, "C13a-mapped-request-order", oc,
               "requested (new) names are translated one by one, in the "
               "requested order, to the wrapped reader's names",
-              "translation of requested columns changed", node=oc.node)
+              why, node=oc.node)
 
 
 # ------------------------------------------------------------------ b
 def _dataframe_partition(ctx, f):
-    loops = [n for n in ast.walk(f.node) if isinstance(n, ast.For)]
-    ctx.require(len(loops) == 1, f"{f.qual}: loop not found")
-    lp = loops[0]
-    v = lp.target.id
-    ok = ast.unparse(lp.iter) == "range(0, len(self.df), chunk_size)"
-    cut = [s for s in lp.body if isinstance(s, ast.Assign)]
-    ok = ok and len(cut) == 1 and ast.unparse(cut[0].value) == \
-        f"self.df.iloc[{v}:{v} + chunk_size]"
-    early = [n for n in ast.walk(lp) if isinstance(n, (ast.Break,
-                                                        ast.Return))]
-    ctx.check(ok and not early, "C13b-row-partition", f,
+    prog = ctx.prog
+    T = Terms(DefUse(prog, f))
+    ys = [n for n in ast.walk(f.node) if isinstance(n, ast.Yield)]
+    ctx.require(ys, f"{f.qual}: yield not found")
+    p_size = [p for p in f.params if p != "self"][0]
+    DF = ("attr", ("param", "self"), "df")
+    W = ("param", p_size)
+    want_range = ("call", "builtins.range",
+                  (("const", 0), ("call", "builtins.len", (DF,), ()), W), ())
+    cuts = []
+    for y in ys:
+        for x in walk_term(T.of(y.value)):
+            if isinstance(x, tuple) and x and x[0] == "sub" and \
+                    x[1] == ("attr", DF, "iloc") and x[2][0] == "slice":
+                cuts.append(x[2])
+    ok = bool(cuts)
+    for sl in cuts:
+        lo, hi, step = sl[1], sl[2], sl[3]
+        d = lin(hi) + lin(lo).scale(-1)
+        ok = ok and lo == ("elem", want_range) and step == (
+            "const", None) and d.const == 0 and [
+                (d.terms[k], v) for k, v in d.atoms.items()] == [(W, 1)]
+    loops = [n for n in ast.walk(f.node) if isinstance(n, (ast.For,
+                                                           ast.While))]
+    early = [n for lp in loops for n in ast.walk(lp)
+             if isinstance(n, (ast.Break, ast.Return))]
+    cfg = CFG(f.node)
+    cond_y = [y for y in ys if any(
+        not (set(cond_strings(t, o)) <= {f"{p} is None", f"{p} is not None"
+                                         } for p in f.params)
+        for t, o in cfg.necessary_conditions(y))]
+    ctx.check(ok and not early and not cond_y, "C13b-row-partition", f,
               "chunks are iloc[pos:pos+w] for pos in range(0, len, w): "
               "every row in exactly one chunk, in order",
-              f"loop {ast.unparse(lp.iter)}; "
-              f"{[ast.unparse(c.value) for c in cut]}", node=lp)
+              f"cuts {[show(c, 160) for c in cuts]}"
+              + ("; the chunk loop can stop early" if early else "")
+              + ("; a chunk is yielded conditionally" if cond_y else ""),
+              node=ys[0])
 
 
 # ------------------------------------------------------------------ d
